@@ -45,6 +45,7 @@ EFFECTS = [
 EXPLANATION += ' (R5, round 8) also doc_start_sync / doc_leave, and the close of an API handle claims its closed flag by an atomic read-modify-write before the request is sent.'
 EXPLANATION += ' (R11, round 9) the OpenOpts builders evaluated: sync() sets the flag and keeps the subscriber, subscribe(tx) sets the subscriber and keeps the flag.'
 EXPLANATION += ' (R12, round 11) = the load cells of C07.R13: a failed open marks nothing open.'
+EXPLANATION += " (R13, round 13) the store's author functions evaluated: get_author answers from the authors row of the id asked, read in this very call (absent = None), import_author stores the secret under its own id, delete_author removes the row of the id given."
 
 
 def actor_bodies(f):
@@ -590,6 +591,67 @@ def r12(ctx):
     from . import C07
     ctx.share("C14.R12", C07.r13, "C07.R13", keep=lambda k: "load[" in k, floor=4)
 
+def r13(ctx):
+    """"replies ... reflect all earlier requests", for the author a local write signs with: the store's author functions evaluated -
+    get_author answers from the authors-table row of the id asked, read in this very call (absent = None, so that a write by a
+    deleted author is refused; C14-12 memoised the last author in the actor), import_author stores the secret under the id of
+    that secret, delete_author removes the row of the id given"""
+    from . import feval as E, tables as T
+    f = ctx.facts
+    types = T.table_types(f)
+
+    def run(path, args, row="present", body=False):
+        log = []
+
+        def oracle(kind, name, payload, site):
+            if kind != "call":
+                return None
+            t, a, it = payload
+            names = [it.tokname(x).strip("&*") for x in a]
+            if name == "tables" and callee_matches(t, r"store::fs::Store::tables$"):
+                return E.Ok(E.Tok("tables"))
+            if callee_matches(t, r"store::fs::Store::modify$"):
+                it.heap.setdefault("tables", E.Tok("tables"))
+                return it.apply(a[1], [E.href("tables")])
+            ct = T.call_table(t, types)
+            if ct and ct[1] == "get":
+                log.append(("%s.get" % ct[0], names[1:]))
+                return {"absent": E.Ok(E.NONE), "read-fails": E.Err(E.Tok("storage-error"))}.get(row, E.Ok(E.Some(E.Tok("rowguard"))))
+            if ct and ct[1] in T.WRITE_OPS:
+                log.append(("%s.%s" % (ct[0], ct[1]), names[1:]))
+                return E.Ok(E.NONE)
+            if name == "value" and names and names[0] == "rowguard":
+                return E.Tok("row-bytes")
+            if name == "from_bytes" and callee_matches(t, r"keys::Author::from_bytes$"):
+                return E.Tok("author-of(%s)" % names[0])
+            if name == "id" and callee_matches(t, r"keys::Author::id$"):
+                return E.Tok("id(%s)" % names[0])
+            if name == "to_bytes" and callee_matches(t, r"keys::Author::to_bytes$"):
+                return E.Tok("secret-bytes(%s)" % names[0])
+            if name in ("as_bytes", "to_bytes"):
+                return E.Tok("b(%s)" % names[0])
+            return None
+        try:
+            ret, itp = E.run_it(f, path, args, {"self": E.Tok("store"), "author_id": E.Tok("author_id")}, oracle)
+            return E.describe(itp.resolve(ret), f), log
+        except E.Unsupported as e:
+            return "UNSUPPORTED-FORM: %s" % e, log
+    g = f.body("store::fs::Store::get_author")
+    ctx.touch(g)
+    for row, want in (("absent", "Ok(None)"), ("present", "Ok(Some(author-of(row-bytes)))"), ("read-fails", "Err")):
+        got, log = run(g.path, [E.href("self"), E.href("author_id")], row)
+        ok = (got == want or (want == "Err" and got.startswith("Err"))) and log == [("authors.get", ["b(author_id)"])]
+        ctx.check(ok, "C14.R13", g.path, "get_author[row-%s]" % row, "returns %s; table accesses %s; spec: %s from the authors row of the id asked, read in this call" % (got, log, want), g.sp)
+    imp = f.body("store::fs::Store::import_author")
+    ctx.touch(*f.family(imp.path))
+    got, log = run(imp.path, [E.href("self"), E.Tok("author")])
+    ctx.check(got == "Ok(())" and log == [("authors.insert", ["b(id(author))", "secret-bytes(author)"])], "C14.R13", imp.path, "import_author", "returns %s; table accesses %s; spec: the secret stored under the id of that secret" % (got, log), imp.sp)
+    de = f.body("store::fs::Store::delete_author")
+    ctx.touch(*f.family(de.path))
+    got, log = run(de.path, [E.href("self"), E.Tok("author")])
+    ctx.check(got == "Ok(())" and log == [("authors.remove", ["b(author)"])], "C14.R13", de.path, "delete_author", "returns %s; table accesses %s; spec: the row of the id given removed" % (got, log), de.sp)
+    ctx.floor("C14.R13", 5)
+
 def run(ctx):
     ctx.run_rule("C14.R1", r1)
     ctx.run_rule("C14.R2", r2)
@@ -603,3 +665,4 @@ def run(ctx):
     ctx.run_rule("C14.R10", r10)
     ctx.run_rule("C14.R11", r11)
     ctx.run_rule("C14.R12", r12)
+    ctx.run_rule("C14.R13", r13)
